@@ -10,7 +10,7 @@ use inputlayer::{DurabilityMode, Tuple, Value};
 use std::sync::{Arc, Mutex};
 
 #[derive(Clone, Debug)]
-pub enum Op { Append(usize, Vec<u64>), Flush(usize) }
+pub enum Op { Append(usize, Vec<u64>), Flush(usize), Compact(usize) }
 
 pub fn parse_progs(s: &str) -> Option<Vec<Vec<Op>>> {
     s.split('/').map(|t| {
@@ -19,6 +19,7 @@ pub fn parse_progs(s: &str) -> Option<Vec<Vec<Op>>> {
             let (k, r) = o.split_at(1);
             match k {
                 "f" => Some(Op::Flush(r.parse().ok()?)),
+                "k" => Some(Op::Compact(r.parse().ok()?)),
                 "a" => { let mut it = r.split('.'); let s = it.next()?.parse().ok()?; Some(Op::Append(s, it.map(|x| x.parse().ok()).collect::<Option<Vec<u64>>>()?)) }
                 _ => None,
             }
@@ -28,12 +29,17 @@ pub fn parse_progs(s: &str) -> Option<Vec<Vec<Op>>> {
 pub fn show_progs(p: &[Vec<Op>]) -> String {
     p.iter().map(|t| if t.is_empty() { "-".to_string() } else { t.iter().map(|o| match o {
         Op::Flush(s) => format!("f{s}"),
+        Op::Compact(s) => format!("k{s}"),
         Op::Append(s, us) => format!("a{s}{}", us.iter().map(|u| format!(".{u}")).collect::<String>()),
     }).collect::<Vec<_>>().join(",") }).collect::<Vec<_>>().join("/")
 }
 
 fn shard_name(s: usize) -> String { format!("k:s{s}") }
-fn upd(id: u64) -> Update { Update { data: Tuple::new(vec![Value::Int64(id as i64)]), time: id, diff: 1 } }
+/// id < 1000: insert of tuple (id) at time id; id >= 1000: delete of tuple (id - 1000) at time id
+fn upd(id: u64) -> Update {
+    if id >= 1000 { Update { data: Tuple::new(vec![Value::Int64((id - 1000) as i64)]), time: id, diff: -1 } }
+    else { Update { data: Tuple::new(vec![Value::Int64(id as i64)]), time: id, diff: 1 } }
+}
 fn ids(v: &[u64]) -> String { v.iter().map(|x| x.to_string()).collect::<Vec<_>>().join(".") }
 
 fn pcfg(path: &std::path::Path, b: usize) -> PersistConfig {
@@ -57,7 +63,8 @@ fn wal_ids(dir: &std::path::Path, ns: usize) -> Vec<Vec<u64>> {
 }
 
 fn read_ids(p: &FilePersist, s: usize) -> Vec<u64> {
-    match p.read(&shard_name(s), 0) { Ok(us) => us.iter().map(|u| u.time).collect(), Err(_) => vec![] }
+    // an update is reported by its time, once per unit of |diff| (a consolidated duplicate has |diff| = 2)
+    match p.read(&shard_name(s), 0) { Ok(us) => us.iter().flat_map(|u| std::iter::repeat(u.time).take(u.diff.unsigned_abs() as usize)).collect(), Err(_) => vec![] }
 }
 
 pub fn exec(req: &str) -> String {
@@ -76,7 +83,7 @@ pub fn exec(req: &str) -> String {
     let persist = Arc::new(FilePersist::new(pcfg(&dir, b)).unwrap());
     for s in 0..pre { persist.ensure_shard(&shard_name(s)).unwrap(); }
 
-    let mut active = vec!["persist.append.after_wal", "persist.append.after_buffer"];
+    let mut active = vec!["persist.append.after_wal", "persist.append.after_buffer", "persist.compact.after_flush"];
     if fine { active.push("persist.flush.before_wal"); }
     let sc = Sched::new(progs.len(), &active, &["persist.flush.before_wal"]);
     let acks: Arc<Mutex<Vec<Vec<(usize, bool)>>>> = Arc::new(Mutex::new(vec![vec![]; progs.len()]));
@@ -90,6 +97,7 @@ pub fn exec(req: &str) -> String {
                 let ok = std::panic::catch_unwind(std::panic::AssertUnwindSafe(|| match &op {
                     Op::Append(s, us) => p.append(&shard_name(*s), &us.iter().map(|u| upd(*u)).collect::<Vec<_>>()).is_ok(),
                     Op::Flush(s) => p.flush(&shard_name(*s)).is_ok(),
+                    Op::Compact(s) => p.compact(&shard_name(*s), 0).is_ok(),
                 })).unwrap_or(false);
                 acks.lock().unwrap()[t].push((w.step_no(), ok));
             }
@@ -152,7 +160,7 @@ pub fn exec(req: &str) -> String {
 // generator: a throw-away simulation of the step structure (only to *choose* schedules: which
 // thread is enabled, how long a maximal schedule is). It is not part of what is checked.
 #[derive(Clone, PartialEq)]
-enum Pc { Start, AfterWal, AfterBuf(bool), Hold }
+enum Pc { Start, AfterWal, AfterBuf(bool), Hold, CmpAfterFlush }
 #[derive(Clone)]
 struct Sim { b: usize, fine: bool, buf: Vec<usize>, present: Vec<bool>, lock: Option<usize>, todo: Vec<Vec<Op>>, pc: Vec<Pc> }
 impl Sim {
@@ -163,16 +171,18 @@ impl Sim {
     fn needs_lock(&self, t: usize) -> bool {
         match (&self.pc[t], self.todo[t].first()) {
             (Pc::AfterWal, _) | (Pc::AfterBuf(true), _) => true,
-            (Pc::Start, Some(Op::Flush(_))) => true,
+            (Pc::Start, Some(Op::Flush(_))) | (Pc::Start, Some(Op::Compact(_))) | (Pc::CmpAfterFlush, _) => true,
             _ => false,
         }
     }
     fn enabled(&self, t: usize) -> bool { !self.finished(t) && !(self.needs_lock(t) && self.lock.is_some()) }
     fn finish(&mut self, t: usize) { self.todo[t].remove(0); self.pc[t] = Pc::Start; }
+    fn flush_done(&mut self, t: usize) { if matches!(self.todo[t].first(), Some(Op::Compact(_))) { self.pc[t] = Pc::CmpAfterFlush; } else { self.finish(t); } }
     fn flush_enter(&mut self, t: usize, s: usize) {
-        if !self.present[s] || self.buf[s] == 0 { self.finish(t); return; }
+        if !self.present[s] { self.finish(t); return; }
+        if self.buf[s] == 0 { self.flush_done(t); return; }
         self.buf[s] = 0;
-        if self.fine { self.lock = Some(t); self.pc[t] = Pc::Hold; } else { self.finish(t); }
+        if self.fine { self.lock = Some(t); self.pc[t] = Pc::Hold; } else { self.flush_done(t); }
     }
     fn step(&mut self, t: usize) {
         let op = self.todo[t][0].clone();
@@ -181,8 +191,9 @@ impl Sim {
             (Pc::AfterWal, Op::Append(s, us)) => { self.present[s] = true; self.buf[s] += us.len(); self.pc[t] = Pc::AfterBuf(self.buf[s] >= self.b); }
             (Pc::AfterBuf(false), _) => self.finish(t),
             (Pc::AfterBuf(true), Op::Append(s, _)) => self.flush_enter(t, s),
-            (Pc::Start, Op::Flush(s)) => self.flush_enter(t, s),
-            (Pc::Hold, _) => { self.lock = None; self.finish(t); }
+            (Pc::Start, Op::Flush(s)) | (Pc::Start, Op::Compact(s)) => self.flush_enter(t, s),
+            (Pc::Hold, _) => { self.lock = None; self.flush_done(t); }
+            (Pc::CmpAfterFlush, _) => self.finish(t),
             _ => self.finish(t),
         }
     }
@@ -263,6 +274,43 @@ pub fn gen(ctx: &mut Ctx) -> Vec<String> {
         ctx.count(&format!("threads_{nt}"));
         out.push(req(b, fine, ns, pre, &progs, &s));
     }
+    // (2b) compaction (`compact(shard, 0)` = flush ; compaction) and deletes: sequential histories with a crash image
+    //      after every step — compaction placed between an append and the next flush, deletes (ids >= 1000) of
+    //      earlier inserted tuples, further compactions; every shard is ensured up front
+    let seqs: Vec<Vec<Op>> = vec![
+        vec![Op::Append(0, vec![5]), Op::Compact(0), Op::Append(0, vec![1005])],
+        vec![Op::Append(0, vec![5, 6]), Op::Compact(0), Op::Append(0, vec![1005]), Op::Flush(0), Op::Compact(0)],
+        vec![Op::Append(0, vec![1, 2]), Op::Flush(0), Op::Append(0, vec![3]), Op::Compact(0), Op::Append(0, vec![1001]), Op::Compact(0), Op::Compact(0)],
+        vec![Op::Compact(0), Op::Append(0, vec![7]), Op::Append(0, vec![1007]), Op::Compact(0), Op::Append(0, vec![8])],
+    ];
+    for prog in &seqs { for b in [2usize, 100] { for fine in [false, true] {
+        out.push(req(b, fine, 1, 1, &[prog.clone()], &[])); ctx.count("compaction_sequential");
+    } } }
+    for _ in 0..ctx.budget(120, 2500) {
+        let ns = 1 + ctx.below(2);
+        let mut live: Vec<Vec<u64>> = vec![vec![]; ns]; let mut next = 1u64;
+        let len = 3 + ctx.below(6);
+        let prog: Vec<Op> = (0..len).map(|_| { let s = ctx.below(ns); match ctx.below(7) {
+            0 | 1 | 2 => { let k = 1 + ctx.below(2); let v: Vec<u64> = (next..next + k as u64).collect(); next += k as u64; live[s].extend(v.iter().copied()); Op::Append(s, v) }
+            3 => { if live[s].is_empty() { Op::Flush(s) } else { let j = ctx.below(live[s].len()); let x = live[s].remove(j); Op::Append(s, vec![1000 + x]) } }
+            4 => Op::Flush(s),
+            _ => Op::Compact(s) } }).collect();
+        let b = *ctx.pick(&[2usize, 3, 100]); let fine = ctx.chance(1, 2);
+        out.push(req(b, fine, ns, ns, &[prog], &[])); ctx.count("compaction_sequential");
+    }
+    // (2c) a compacting thread against appending threads: every maximal schedule (strided), both granularities
+    let cshapes: Vec<(usize, Vec<Vec<Op>>)> = vec![
+        (100, vec![vec![Op::Append(0, vec![1]), Op::Append(0, vec![2])], vec![Op::Compact(0)]]),
+        (100, vec![vec![Op::Append(0, vec![1]), Op::Append(0, vec![1001])], vec![Op::Compact(0), Op::Compact(0)]]),
+        (2, vec![vec![Op::Append(0, vec![1])], vec![Op::Append(0, vec![2])], vec![Op::Compact(0)]]),
+    ];
+    for (b, progs) in &cshapes { for fine in [false, true] {
+        let sim = Sim::new(*b, fine, 1, 1, progs);
+        let mut all = vec![]; all_schedules(&sim, &mut vec![], &mut all, 50000);
+        let cap = ctx.budget(60, 3000);
+        let stride = (all.len() + cap - 1) / cap.max(1);
+        for s in all.iter().step_by(stride.max(1)) { out.push(req(*b, fine, 1, 1, progs, s)); ctx.count("compaction_concurrent"); }
+    } }
     // (3) malformed / degenerate
     out.push("c15.p B=2 fine=0 S=1 pre=0 T=a0 | 0 ; 0".into());          // empty append
     out.push("c15.p B=2 fine=0 S=1 pre=0 T=f0 | 0 ; 5 ; 0".into());      // flush of a missing shard; unknown thread id
